@@ -463,6 +463,67 @@ fn inflect(rep: &mut Report) {
             }
         }
     }
+    // every code path that computes a property name: the field attributes that take their own branch
+    // in format_field (type override, `as`, inline, optional, default) x the three places a field rule
+    // can come from (struct rename_all, variant rename_all, enum rename_all_fields)
+    if si == 0 {
+        let field_attrs: &[(&str, &str, &str)] = &[
+            ("plain", "", "i32"),
+            ("type-override", "#[ts(type = \"string\")] ", "i32"),
+            ("as", "#[ts(as = \"String\")] ", "i32"),
+            ("inline", "#[ts(inline)] ", "Vec<i32>"),
+            ("optional", "#[ts(optional)] ", "Option<i32>"),
+            ("optional-nullable", "#[ts(optional = nullable)] ", "Option<i32>"),
+        ];
+        for ident_s in ["foo_bar", "fooBar", "r#type", "x_"] {
+            let name = ident_s.trim_start_matches("r#");
+            for (rule_name, _, serde_rule) in RULES {
+                let expected = match caught(|| serde_rule.apply_to_field(name)) {
+                    Ok(e) => e,
+                    Err(_) => continue,
+                };
+                for (attr_name, attr, ty) in field_attrs {
+                    let contexts = [
+                        ("struct-rename_all", format!("#[ts(rename_all = \"{rule_name}\")] struct S {{ other: bool, {attr}{ident_s}: {ty} }}")),
+                        ("variant-rename_all", format!("enum E {{ #[ts(rename_all = \"{rule_name}\")] V {{ other: bool, {attr}{ident_s}: {ty} }}, W }}")),
+                        ("enum-rename_all_fields", format!("#[ts(rename_all_fields = \"{rule_name}\")] enum E {{ V {{ other: bool, {attr}{ident_s}: {ty} }}, W }}")),
+                        ("tagged-enum-rename_all_fields", format!("#[ts(tag = \"t\", rename_all_fields = \"{rule_name}\")] enum E {{ V {{ {attr}{ident_s}: {ty} }}, W }}")),
+                    ];
+                    for (ctx_name, src) in contexts {
+                        rep.evaluations += 1;
+                        match derive_src(&src) {
+                            Obs::Ok(tokens) => {
+                                let quoted = crate::utils::raw_name_to_ts_field(expected.clone());
+                                let lit = proc_macro2::Literal::string(&quoted).to_string();
+                                // the name is followed by `:` or `?:` inside a format string; look for the
+                                // quoted name or the bare name before a colon
+                                let bare_ok = tokens.contains(&lit)
+                                    || tokens.contains(&format!("{quoted}:"))
+                                    || tokens.contains(&format!("{quoted}?:"))
+                                    || tokens.contains(&format!("\"{quoted}\""));
+                                if !bare_ok {
+                                    rep.violation(
+                                        jobj(&[
+                                            ("check", jstr("expansion-lacks-serde-name")),
+                                            ("rule", jstr(rule_name)),
+                                            ("position", jstr(&format!("field/{ctx_name}/{attr_name}"))),
+                                            ("conventional_identifier", conventional(name, true).to_string()),
+                                        ]),
+                                        jobj(&[("src", jstr(&src)), ("expected_name", jstr(&expected))]),
+                                    );
+                                }
+                                rep.count("field_attribute_naming_cases", 1);
+                            }
+                            other => rep.violation(
+                                jobj(&[("check", jstr("derive-fails")), ("rule", jstr(rule_name))]),
+                                jobj(&[("src", jstr(&src)), ("obs", jstr(&format!("{other:?}").chars().take(300).collect::<String>()))]),
+                            ),
+                        }
+                    }
+                }
+            }
+        }
+    }
 }
 
 // =================================================================================================
